@@ -40,6 +40,12 @@ func TestC15(t *testing.T) {
 			r.last = u.snap()
 		}
 		r.run(per)
+		// the emergency-shutdown hooks (price snapshot, redemption of vaults / stable-mint vaults / collector, shares)
+		r.beforeEsmRedemption = func() {
+			exploreAtBoundary(u.c, rec, 20*time.Minute, "cdp-esm-redemption", ev.Pick(2500, 20000))
+			rec.Count("esm_redemption_blocks_explored", 1)
+		}
+		r.esmPhase(u.cdpApps[variant%len(u.cdpApps)])
 		if run == 0 {
 			rec.Sample(map[string]interface{}{"variant": variant, "oplog_tail": r.tail(8)})
 		}
